@@ -417,6 +417,9 @@ def rule_validator_model(chk):
         ('dest-lacks-precomputed-name', dict(dest_props=[k for k in FULL if k != 'hd'] + ['extra'], src_props=FULL), 'raised', ('EqX', 'fluid', 'hd')),
         ('second-source-lacks-explicit-name', dict(dest_props=FULL, src_props=[k for k in FULL if k != 'm']), 'raised', ('EqX', 'solid', 'm')),
         ('source-lacks-precomputed-name', dict(dest_props=FULL, src_props=[k for k in FULL if k != 'hs'] + ['extra']), 'raised', ('EqX', 'solid', 'hs')),
+        # every source is validated, not only the last one listed
+        ('first-of-two-sources-lacks-explicit-name', dict(dest_props=FULL, src_props=[k for k in FULL if k != 'm'], sources=('solid', 'fluid')), 'raised', ('EqX', 'solid', 'm')),
+        ('first-of-two-sources-lacks-precomputed-name', dict(dest_props=FULL, src_props=[k for k in FULL if k != 'hs'] + ['extra'], sources=('solid', 'fluid')), 'raised', ('EqX', 'solid', 'hs')),
         ('constants-count', dict(dest_props=[k for k in FULL if k != 'rho'], src_props=FULL, dest_consts=['rho', 'c0']), 'ok', ()),
         ('source-only-name-not-demanded-from-dest', dict(dest_props=['au', 'x', 'hd', 'extra1', 'extra2', 'extra3', 'extra4'], src_props=FULL, sources=('solid',)), 'ok', ()),
         ('dest-only-name-not-demanded-from-source', dict(dest_props=FULL, src_props=['hs', 'm', 'rho', 'extra1', 'extra2'], sources=('solid',)), 'ok', ()),
